@@ -60,3 +60,49 @@ Print Assumptions c01_union_is_insert.
 Theorem c01_comparators_lawful : forall id, cmp_laws (cmp_of id).
 Proof. exact Order.cmp_of_laws. Qed.
 Print Assumptions c01_comparators_lawful.
+
+(* ---------------------------------------------------------------------------------------------- *)
+(* REGENERATED FROM THE SOURCE ON EVERY RUN (tools/gen -> Generated.g_code; Decisions.v): the decisions the model
+   takes at these points are the evaluations of the conditions the Go source has there, for all values of their
+   variables. *)
+From GK Require Import GExpr Generated Decisions.
+From Coq Require Import String.
+
+(* treap.go union / join: the root is `this` iff its priority is strictly greater (ties go to `that`) *)
+Theorem c01_union_priority_is_source :
+  exists c, decisions "Store.union" "thisItem.Priority" = [c] /\
+            forall x y, gtrue (prio_env x y) c = Some (Z.gtb x y).
+Proof. exact Decisions.union_priority_decision. Qed.
+Print Assumptions c01_union_priority_is_source.
+Theorem c01_join_priority_is_source :
+  exists c, decisions "Store.join" "thisItem.Priority" = [c] /\
+            forall x y, gtrue (prio_env x y) c = Some (Z.gtb x y).
+Proof. exact Decisions.join_priority_decision. Qed.
+Print Assumptions c01_join_priority_is_source.
+
+(* split and GetItem branch on the three-way comparison as Treap.split / Treap.lookup match on it *)
+Theorem c01_split_compare_is_source :
+  exists c1 c2, decisions "Store.split" "c" = [c1; c2] /\
+    forall o : comparison,
+      gtrue (c_env (cmpz o)) c1 = Some (match o with Eq => true | _ => false end) /\
+      gtrue (c_env (cmpz o)) c2 = Some (match o with Lt => true | _ => false end).
+Proof. exact Decisions.split_compare_decisions. Qed.
+Print Assumptions c01_split_compare_is_source.
+Theorem c01_getitem_compare_is_source :
+  exists c1 c2, decisions "Collection.GetItem" "c" = [c1; c2] /\
+    forall o : comparison,
+      gtrue (c_env (cmpz o)) c1 = Some (match o with Lt => true | _ => false end) /\
+      gtrue (c_env (cmpz o)) c2 = Some (match o with Gt => true | _ => false end).
+Proof. exact Decisions.getitem_compare_decisions. Qed.
+Print Assumptions c01_getitem_compare_is_source.
+
+(* SetItem's validation is Treap.valid_item *)
+Theorem c01_validation_is_source :
+  exists c1 c2,
+    decisions "Collection.SetItem" "item.Key" = [c1] /\ decisions "Collection.SetItem" "item.Priority" = [c2] /\
+    forall keynil key val prio, (keynil = true -> key = []) ->
+      exists b1 b2, gtrue (item_env keynil key val prio) c1 = Some b1 /\
+                    gtrue (item_env keynil key val prio) c2 = Some b2 /\
+                    valid_item key val prio = negb b1 && negb b2.
+Proof. exact Decisions.setitem_validation_decisions. Qed.
+Print Assumptions c01_validation_is_source.
